@@ -29,6 +29,15 @@ def termLap (XL : Nat → K) (s : K) : Term K → K
 def decompLap (XL : Nat → K) (s : K) (d : Decomp K) : K :=
   d.dc / s + sumK (d.ac.map (fun p => phasorLap p.2.1 (-p.2.2) p.1 s)) + sumK (d.tr.map (fun p => p.2 * XL p.1))
 
+/-- the phasor a source contributes to the group of angular frequency `w` (`select(w)`): its accumulated entry, or 0 -/
+def acPart [DecidableEq K] (d : Decomp K) (w : K) : K × K :=
+  match d.ac.find? (fun p => decide (p.1 = w)) with
+  | some p => p.2
+  | none => (0, 0)
+
+/-- the transform of the transient part a source contributes to the 'transient' group -/
+def trPart (XL : Nat → K) (d : Decomp K) : K := sumK (d.tr.map (fun p => p.2 * XL p.1))
+
 /-- the parts separately: (dc/s, [(ω, transform of the ω-phasor)], transform of the transient part) -/
 def decompLapParts (XL : Nat → K) (s : K) (d : Decomp K) : K × List (K × K) × K :=
   (d.dc / s, d.ac.map (fun p => (p.1, phasorLap p.2.1 (-p.2.2) p.1 s)), sumK (d.tr.map (fun p => p.2 * XL p.1)))
